@@ -1,7 +1,14 @@
 //! exprsmt driver: run each backend's public generator API on a probe world
 //! and write the generated files below an output directory.
 //!
-//!   exprsmt-driver <backend> <file.wit> <world|-> <out-dir>
+//!   exprsmt-driver <backend> <file.wit> <world|-> <out-dir> [key=value ...]
+//!
+//! The optional trailing `key=value` arguments are Rust generator options
+//! (backend `rust` only; used by the rustgen engine):
+//!   ownership=owning|borrowing|borrowing-duplicate-if-necessary
+//!   std_feature=true|false   raw_strings=true|false
+//!   map_type=<path>          merge_structurally_equal_types=true|false
+//!   stubs=true|false         generate_unused_types=true|false
 //!
 //! Mirrors /repo/src/bin/wit-bindgen.rs (`Opts::build()` +
 //! `WorldGenerator::generate`), with default options.
@@ -12,8 +19,11 @@ use wit_bindgen_core::{Files, WorldGenerator};
 
 fn main() -> Result<()> {
     let a: Vec<String> = std::env::args().collect();
-    if a.len() != 5 {
-        bail!("usage: exprsmt-driver <backend> <file.wit> <world|-> <out-dir>");
+    if a.len() < 5 || a[5..].iter().any(|kv| !kv.contains('=')) {
+        bail!("usage: exprsmt-driver <backend> <file.wit> <world|-> <out-dir> [key=value ...]");
+    }
+    if a.len() > 5 && a[1] != "rust" {
+        bail!("generator options are only supported for the rust backend");
     }
     let backend = a[1].as_str();
     let wit_path = PathBuf::from(&a[2]);
@@ -24,9 +34,47 @@ fn main() -> Result<()> {
         "rust" => {
             let mut o = wit_bindgen_rust::Opts::default();
             o.generate_all = true;
+            for kv in &a[5..] {
+                let (k, v) = kv.split_once('=').unwrap();
+                let b = || -> Result<bool> {
+                    match v {
+                        "1" | "true" | "on" | "yes" => Ok(true),
+                        "0" | "false" | "off" | "no" => Ok(false),
+                        _ => bail!("option {k}: expected true|false, got {v}"),
+                    }
+                };
+                match k {
+                    "ownership" => {
+                        o.ownership = v.parse().map_err(|e: String| anyhow::anyhow!("ownership: {e}"))?
+                    }
+                    "std_feature" => o.std_feature = b()?,
+                    "raw_strings" => o.raw_strings = b()?,
+                    "map_type" => o.map_type = Some(v.to_string()),
+                    "merge_structurally_equal_types" => {
+                        o.merge_structurally_equal_types = Some(Some(b()?))
+                    }
+                    "stubs" => o.stubs = b()?,
+                    "generate_unused_types" => o.generate_unused_types = b()?,
+                    other => bail!("unknown rust generator option {other}"),
+                }
+            }
             Box::new(o.build())
         }
-        "c" => wit_bindgen_c::Opts::default().build(),
+        "c" => {
+            let mut o = wit_bindgen_c::Opts::default();
+            for opt in &a[5..] {
+                match opt.as_str() {
+                    "--no-sig-flattening" => o.no_sig_flattening = true,
+                    "--autodrop-borrows=yes" => o.autodrop_borrows = wit_bindgen_c::Enabled::Yes,
+                    "--autodrop-borrows=no" => o.autodrop_borrows = wit_bindgen_c::Enabled::No,
+                    s if s.starts_with("--string-encoding=") => {
+                        o.string_encoding = s["--string-encoding=".len()..].parse()?;
+                    }
+                    other => bail!("unknown c option {other}"),
+                }
+            }
+            o.build()
+        }
         "cpp" => wit_bindgen_cpp::Opts::default().build(Some(&out_dir)),
         "csharp" => wit_bindgen_csharp::Opts::default().build(),
         "go" => wit_bindgen_go::Opts::default().build(),
